@@ -366,8 +366,9 @@ def case_perturb(col, p):
     from dadi import Misc
     k = p['k']
     params = np.array(p.get('params', [2.0, 0.5, 30.0])[:k])
-    lowers = [[0.1, 0.1, 1.0], [1.9, 0.49, 29.0], [-5.0, -1.0, -100.0], [0.0, 0.0, 0.0], [None, 0.1, None]]
-    uppers = [[10.0, 10.0, 100.0], [2.1, 0.51, 31.0], [None, 2.0, None], [3.0, 0.6, 40.0], [-1.0, 5.0, -2.0]]
+    lowers = [[0.1, 0.1, 1.0], [1.9, 0.49, 29.0], [-5.0, -1.0, -100.0], [0.0, 0.0, 0.0], [None, 0.1, None], [0.001, 0.002, 0.0005]]
+    # (the last box is narrower than 0.01 in absolute terms: a rate or a proportion bounded to [0.001, 0.005])
+    uppers = [[10.0, 10.0, 100.0], [2.1, 0.51, 31.0], [None, 2.0, None], [3.0, 0.6, 40.0], [-1.0, 5.0, -2.0], [0.005, 0.004, 0.003]]
     n = 0
     real_uniform = numpy.random.uniform
     try:
